@@ -1,5 +1,6 @@
 import RtenVerif.Driver.Util
 import RtenVerif.Model.ShapeInfer
+import RtenVerif.Model.ShapeExec
 
 namespace RtenVerif.Driver.C10
 open RtenVerif.Driver RtenVerif.ShapeInfer
@@ -184,6 +185,94 @@ def infer (key attrs : String) (ins : List (Option STn)) : Option String :=
     match ins with
     | [some d] => d.dims.map fun _ => showRes (transposeInfer (attrNats attrs "perm") d)
     | _ => none
+  | "Size" =>
+    -- the real rule ends with `simplify()` (C11); compared only where that is constant folding
+    match ins with
+    | [some a] =>
+      match a.dims with
+      | some ds =>
+        (mapO (fun (e : Sym) => match e with | .val v => some v | _ => none) ds).map fun vs =>
+          s!"ok S({vs.foldl (fun p d => p * d) 1})"
+      | none => none
+    | _ => none
+  | "Expand" =>
+    match ins with
+    | [some d, some sh] => sh.values.map fun sizes => showRes (expandInfer d sizes)
+    | _ => none
+  | "Neg" => match ins with | [some a] => some s!"ok {tensorText (negInfer a)}" | _ => none
+  | "Identity" => match ins with | [some a] => some s!"ok {tensorText (identityInfer a)}" | _ => none
+  | "ConstantOfShape" =>
+    match ins, attrInt attrs "value" with
+    | [some sh], some v => sh.values.map fun es => showRes (constantOfShapeInfer (some v) es)
+    | _, _ => none
+  | _ => none
+
+/-! ### `exec` requests: the reference execution semantics on concrete tensors -/
+
+def toCT : STn → Option CT
+  | .scalar (.val v) => some (.scalar v)
+  | .vector es => (mapO (fun (e : Sym) => match e with | .val v => some v | _ => none) es).map CT.vector
+  | .shape ds => (mapO (fun (e : Sym) => match e with | .val v => some v | _ => none) ds).map CT.shaped
+  | _ => none
+
+def ctText : CT → String
+  | .scalar v => s!"S({v})"
+  | .vector vs => s!"V({joinWith "," (vs.map toString)})"
+  | .shaped ds => s!"H({joinWith "," (ds.map toString)})"
+
+def okCT (o : Option CT) : Option String := some (match o with | some c => s!"ok {ctText c}" | none => "fail")
+
+/-- Reference output for one `exec` request; `none` = no reference for this input form (`skip`). -/
+def execRef (key attrs : String) (ins : List (Option CT)) : Option String :=
+  let bin (f : Int → Int → Option Int) : Option String :=
+    match ins with | [some a, some b] => okCT (execBinaryFull f a b) | _ => none
+  match key with
+  | "Add" => bin fun x y => some (x + y)
+  | "Sub" => bin fun x y => some (x - y)
+  | "Mul" => bin fun x y => some (x * y)
+  | "Div" => bin fun x y => if y = 0 then none else some (tdiv x y)
+  | "Equal" => bin fun x y => some (if x = y then 1 else 0)
+  | "Where" => match ins with | [some c, some x, some y] => okCT (cwhereFull c x y) | _ => none
+  | "Shape" => match ins with
+    | [some a] => okCT (some (execShape (attrInt attrs "start") (attrInt attrs "end") a))
+    | _ => none
+  | "Size" => match ins with
+    | [some a] => okCT (some (.scalar (a.dims.foldl (fun p d => p * d) 1)))
+    | _ => none
+  | "Gather" =>
+    match ins, attrInt attrs "axis" with
+    | [some (.vector vs), some (.scalar i)], some 0 =>
+      okCT ((resolveIndex vs.length i).bind fun k => (vs[k]?).map CT.scalar)
+    | [some (.vector vs), some (.vector idxs)], some 0 => okCT ((cgather vs idxs).map CT.vector)
+    | _, _ => none
+  | "Concat" =>
+    match attrInt attrs "axis", ins.mapM id with
+    | some 0, some cs => if cs.all (fun c => match c with | .vector _ => true | _ => false) then okCT (cconcat cs) else none
+    | _, _ => none
+  | "Unsqueeze" =>
+    match ins with
+    | [some (.scalar v), some (.vector [0])] => okCT (some (.vector [v]))
+    | [some d, some (.vector axes)] => okCT ((cunsqueeze d.dims axes).map CT.shaped)
+    | _ => none
+  | "Squeeze" =>
+    match ins with
+    | [some (.vector [v]), none] => okCT (some (.scalar v))
+    | [some (.vector [v]), some (.vector axes)] =>
+      if (mapO (resolveIndex 1) axes) == some [0] then okCT (some (.scalar v)) else none
+    | [some d, some (.vector axes)] => okCT ((csqueeze d.dims axes).map CT.shaped)
+    | _ => none
+  | "Transpose" => match ins with
+    | [some d] => okCT ((ctranspose (attrNats attrs "perm") d.dims).map CT.shaped)
+    | _ => none
+  | "Expand" => match ins with
+    | [some d, some (.vector sizes)] => okCT ((cbroadcast d.dims sizes).map CT.shaped)
+    | _ => none
+  | "ConstantOfShape" =>
+    match ins, attrInt attrs "value" with
+    | [some (.vector sh)], some v => okCT (cconstantOfShape (some v) sh)
+    | _, _ => none
+  | "Neg" => match ins with | [some a] => okCT (some (cneg a)) | _ => none
+  | "Identity" => match ins with | [some a] => okCT (some a) | _ => none
   | _ => none
 
 def handle (line : String) : String :=
@@ -191,6 +280,14 @@ def handle (line : String) : String :=
   match (body.splitOn " | ") with
   | head :: tensors =>
     match words head with
+    | "graph" :: _ => "skip"
+    | ["exec", key, attrs] =>
+      match ((tensors.map fun t => t.trimAscii.toString).filter (fun t => !t.isEmpty) |>.map parseTensor).mapM id with
+      | some ins =>
+        match (ins.map fun (o : Option STn) => match o with | none => some none | some t => (toCT t).map some).mapM id with
+        | some cs => (execRef key attrs cs).getD "skip"
+        | none => "bad-request"
+      | none => "bad-request"
     | ["inf", key, attrs] =>
       match ((tensors.map fun t => t.trimAscii.toString).filter (fun t => !t.isEmpty) |>.map parseTensor).mapM id with
       | some ins => (infer key attrs ins).getD "skip"
